@@ -1,3 +1,157 @@
-/- Property theorems for C04 (stub: not built yet). -/
+/-
+C04  Every estimator obeys the scikit-learn protocol: parameters, clone, fitted state.
+
+Part A  theorems over ANY class table (SkVerif/Model/Params.lean, Layer A).  The table of the real
+        package is regenerated from the source on every check and its per-class `Summary` is
+        re-established by the kernel (`decide +kernel`); these theorems say what a summary means.
+Part B  theorems over ANY parameter tree (Layer B: get_params / set_params / clone / _check_names).
+
+Only theorems + non-vacuity examples here; proofs of the lemmas are in Lemmas/Params*.lean.
+-/
+import SkVerif.Model.Params
+import SkVerif.Spec.Params
+import SkVerif.Lemmas.Params
 namespace SkVerif.C04
+open SkVerif SkVerif.Params
+
+variable {N : Type} [DecidableEq N]
+
+/-! ## Part A : constructor contract, fitted-state guards, fit frame -/
+
+/-- what `ctorOK` of a summary says about the primitive constructor trace -/
+theorem ctorOK_unfold (tbl : Table N) (fa fn : N) (am : List N) (cls : N)
+    (h : (summarize tbl fa fn am cls).ctorOK = true) :
+    (∀ p ∈ ctorParams tbl cls, pstatus (ctorPrims tbl cls) p = .stored) ∧ mayRaise (ctorPrims tbl cls) = false := by
+  simp only [Summary.ctorOK, summarize, Bool.and_eq_true, List.all_eq_true, List.mem_map,
+    Bool.not_eq_true', beq_iff_eq, forall_exists_index, and_imp, forall_apply_eq_imp_iff₂] at h
+  exact ⟨h.1.1.1, h.1.1.2⟩
+
+/-- **get_params returns exactly what was passed.**  For a class whose regenerated summary is `ctorOK`,
+construction never raises and afterwards every constructor parameter is stored under its own name
+holding the argument itself -- for every argument tuple, every value of the constants / derived
+expressions in the constructor chain and every outcome of its branches. -/
+theorem wf_getParams_eq_args {V : Type} (tbl : Table N) (fa fn : N) (am : List N) (cls : N)
+    (I : Interp N V) (args : N → V) (h : (summarize tbl fa fn am cls).ctorOK = true) :
+    ∃ s, construct tbl I cls args = some s ∧ ∀ p ∈ ctorParams tbl cls, assocGet p s = some (args p) := by
+  obtain ⟨hst, hnr⟩ := ctorOK_unfold tbl fa fn am cls h
+  obtain ⟨s, hs⟩ := Lem.runPrims_total I args (ctorPrims tbl cls) 0 [] hnr
+  refine ⟨s, hs, ?_⟩
+  intro p hp
+  have hrel := Lem.absFrom_sound I args p (ctorPrims tbl cls) 0 .absent [] s (by simp [AbsRel, assocGet]) hs
+  have hstored := hst p hp
+  unfold pstatus at hstored
+  change AbsRel I args p (absOf p (ctorPrims tbl cls)) s at hrel
+  cases habs : absOf p (ctorPrims tbl cls) with
+  | absent => simp [habs] at hstored
+  | unknown => simp [habs] at hstored
+  | is e =>
+    rw [habs] at hstored hrel
+    by_cases he : e = .param p
+    · subst he
+      simpa [AbsRel, evalExpr] using hrel
+    · simp [he] at hstored
+
+/-- A parameter the table reports `missing` is really absent after construction (so `get_params`,
+which does `getattr(self, name)`, raises AttributeError): the detector for `self.x_ = x`. -/
+theorem ctor_missing_param_absent {V : Type} (tbl : Table N) (cls : N) (I : Interp N V) (args : N → V)
+    (p : N) (s : List (N × V)) (hm : pstatus (ctorPrims tbl cls) p = .missing)
+    (hs : construct tbl I cls args = some s) : assocGet p s = none := by
+  have hrel := Lem.absFrom_sound I args p (ctorPrims tbl cls) 0 .absent [] s (by simp [AbsRel, assocGet]) hs
+  change AbsRel I args p (absOf p (ctorPrims tbl cls)) s at hrel
+  unfold pstatus at hm
+  cases habs : absOf p (ctorPrims tbl cls) with
+  | absent => rw [habs] at hrel; simpa [AbsRel] using hrel
+  | unknown => simp [habs] at hm
+  | is e =>
+    rw [habs] at hm
+    by_cases he : e = .param p <;> simp [he] at hm
+
+/-- **A freshly constructed estimator is unfitted**: if the summary says so, the fitted flag holds
+`False` after every successful construction. -/
+theorem fresh_not_fitted {V : Type} (tbl : Table N) (fa fn : N) (am : List N) (cls : N)
+    (I : Interp N V) (args : N → V) (s : List (N × V))
+    (h : (summarize tbl fa fn am cls).freshUnfitted = true)
+    (hs : construct tbl I cls args = some s) : assocGet fa s = some (I.ofBool false) := by
+  have hrel := Lem.absFrom_sound I args fa (ctorPrims tbl cls) 0 .absent [] s (by simp [AbsRel, assocGet]) hs
+  change AbsRel I args fa (absOf fa (ctorPrims tbl cls)) s at hrel
+  have habs : absOf fa (ctorPrims tbl cls) = .is (.lit false) := by
+    simpa [summarize] using h
+  rw [habs] at hrel
+  simpa [AbsRel, evalExpr] using hrel
+
+/-- **A guarded method on an unfitted estimator raises NotFittedError** -- not another error, not a
+result -- for every oracle (which conditionals run, which reads of missing state would fail). -/
+theorem guarded_method_unfitted_raises_NotFitted (tbl : Table N) (fa cls m : N) (es : List (Eff N))
+    (_hes : inlineMethod tbl fa cls m = some es) (hg : guardScan es = true)
+    (choice : Nat → Bool) (i : Nat) : runEffects false choice i es = .notFitted :=
+  Lem.guardScan_sound choice es i hg
+
+/-- the same, read off the summary: entry `j` of `guards` is `guarded` -/
+theorem summary_guarded_raises_NotFitted (tbl : Table N) (fa fn : N) (am : List N) (cls : N) (j : Nat) (m : N)
+    (hm : am[j]? = some m) (h : (summarize tbl fa fn am cls).guardOK j = true) :
+    ∃ es, inlineMethod tbl fa cls m = some es ∧ ∀ choice i, runEffects false choice i es = .notFitted := by
+  simp only [Summary.guardOK, summarize, List.getElem?_map, hm, Option.map_some, beq_iff_eq,
+    Option.some.injEq] at h
+  cases hes : inlineMethod tbl fa cls m with
+  | none => simp [hes] at h
+  | some es =>
+    refine ⟨es, rfl, ?_⟩
+    intro choice i
+    apply Lem.guardScan_sound
+    simp only [hes] at h
+    by_cases ha : effAbstract es = true
+    · simp [ha] at h
+    · by_cases hg : guardScan es = true
+      · exact hg
+      · simp [ha, hg] at h
+
+/-- **fit leaves every constructor parameter unchanged** when the table finds no assignment to a
+parameter in anything `fit` runs: whatever values the assignments store and whatever else happens. -/
+theorem fit_frame {V : Type} (tbl : Table N) (fa fn : N) (am : List N) (cls : N)
+    (h : (summarize tbl fa fn am cls).fitFrameOK = true)
+    (val : Nat → V) (hav : Nat → List (N × V) → List (N × V)) (i : Nat) (s : List (N × V)) :
+    ∀ p ∈ ctorParams tbl cls,
+      assocGet p (runFit val hav i ((inlineMethod tbl fa cls fn).getD []) s) = assocGet p s := by
+  intro p hp
+  simp only [Summary.fitFrameOK, summarize, Bool.and_eq_true, List.isEmpty_iff, List.filter_eq_nil_iff,
+    Bool.not_eq_true', Bool.not_eq_true] at h
+  apply Lem.runFit_frame
+  · exact h.2
+  · intro hmem
+    have := h.1 p hp
+    simp [hmem] at this
+
+/-! ### non-vacuity: a three-class table (Base sets the fitted flag; Good forwards to it and stores its
+arguments; Bad stores `x + 1`, stores `y` as `y_`, forgets `super().__init__()`, and assigns `x` in fit) -/
+
+namespace Ex
+/- names: 0 Base, 1 Good, 2 Bad, 10 x, 11 y, 12 y_, 20 _is_fitted, 21 fit, 22 predict, 23 check_is_fitted, 24 coef_ -/
+def base : ClassEntry Nat :=
+  { name := 0, external := false, extPositional := [], extKnown := false, extNames := [], mro := [0],
+    init := some { params := [], varargs := false, body := [.assign 20 (.lit false) false] },
+    methods := [{ name := 23, isProp := false, events := [.check false] }],
+    classAttrs := [], getImpl := .inherit, setImpl := .inherit, hooks := false }
+def good : ClassEntry Nat :=
+  { name := 1, external := false, extPositional := [], extKnown := false, extNames := [], mro := [1, 0],
+    init := some { params := [(10, true), (11, true)], varargs := false,
+                   body := [.assign 10 (.param 10) false, .assign 11 (.param 11) false, .superCall none [] [] false false] },
+    methods := [{ name := 21, isProp := false, events := [.use 10, .write 24, .write 20, .ret false true] },
+                { name := 22, isProp := false, events := [.callSelf 23, .use 24, .ret false false] }],
+    classAttrs := [], getImpl := .inherit, setImpl := .inherit, hooks := false }
+def bad : ClassEntry Nat :=
+  { name := 2, external := false, extPositional := [], extKnown := false, extNames := [], mro := [2, 0],
+    init := some { params := [(10, true), (11, true)], varargs := false,
+                   body := [.raiseIf false, .assign 10 (.derived 1) false, .assign 12 (.param 11) false] },
+    methods := [{ name := 21, isProp := false, events := [.write 10, .write 20, .ret false true] },
+                { name := 22, isProp := false, events := [.use 24, .callSelf 23, .ret false false] }],
+    classAttrs := [], getImpl := .inherit, setImpl := .inherit, hooks := false }
+def tbl : Table Nat := [base, good, bad]
+end Ex
+
+example : (summarize Ex.tbl 20 21 [22] 1).ctorOK = true ∧ (summarize Ex.tbl 20 21 [22] 1).freshUnfitted = true ∧
+    (summarize Ex.tbl 20 21 [22] 1).guardOK 0 = true ∧ (summarize Ex.tbl 20 21 [22] 1).fitFrameOK = true := by decide
+example : (summarize Ex.tbl 20 21 [22] 2).ctor = [.unknown, .missing] ∧ (summarize Ex.tbl 20 21 [22] 2).mayRaise = true ∧
+    (summarize Ex.tbl 20 21 [22] 2).freshUnfitted = false ∧ (summarize Ex.tbl 20 21 [22] 2).guards = [.unguarded] ∧
+    (summarize Ex.tbl 20 21 [22] 2).fitWrites = [10] := by decide
+
 end SkVerif.C04
